@@ -14,7 +14,7 @@ import (
 	"github.com/AdguardTeam/urlfilter/rules"
 )
 
-func init() { gens["c15.cosm"] = genC15 }
+func init() { gens["c15.cosm"] = c15Gen }
 
 var (
 	c15Selectors = []string{".banner", "#ad", ".ad-box", "div[id^=\"ad\"]", ".x", "a[href*=\"track\"]", ".sponsor", "#top > .ad"}
@@ -25,7 +25,7 @@ var (
 	c15Wild = []string{"example.*", "google.*", "www.google.*", "site.*", "sub.example.*"}
 )
 
-func genC15Rule(r *rng) string {
+func c15GenRule(r *rng) string {
 	sel := pick(r, c15Selectors)
 	dom := func() string {
 		n := 1 + r.n(3)
@@ -77,16 +77,17 @@ func c15Host(r *rng) string {
 	}
 }
 
-func selSet(ss ...[]string) string {
+func c15SelSet(ss ...[]string) string {
 	var all []string
 	for _, s := range ss {
 		all = append(all, s...)
 	}
 
-	return sortedTextSet(all)
+	return bSortedTextSet(all)
 }
 
-func genC15(r *rng, n int, w *bufio.Writer) {
+func c15Gen(r *rng, n int, w *bufio.Writer) {
+	bReseed(r)
 	for i := 0; i < n; {
 		nLists := 1 + r.n(2)
 		nLines := 1 + r.n(12)
@@ -96,7 +97,7 @@ func genC15(r *rng, n int, w *bufio.Writer) {
 		bodies := make([][]string, nLists)
 		var all []string
 		for j := 0; j < nLines; j++ {
-			t := genC15Rule(r)
+			t := c15GenRule(r)
 			if len(all) > 0 && r.chance(1, 8) {
 				t = pick(r, all)
 			}
@@ -126,6 +127,21 @@ func genC15(r *rng, n int, w *bufio.Writer) {
 		rulesW := wlist(items...)
 		for j := 0; j < 2 && i < n; j++ {
 			host := c15Host(r)
+			if r.chance(2, 3) { // a domain some rule of the scenario names, or a subdomain / concrete TLD of it
+				var used []string
+				for _, d := range append(append([]string{}, c15Domains...), c15Wild...) {
+					if strings.Contains(strings.Join(all, "\n"), d) {
+						used = append(used, d)
+					}
+				}
+				if len(used) > 0 {
+					host = pick(r, used)
+					if strings.HasSuffix(host, ".*") {
+						host = strings.TrimSuffix(host, "*") + pick(r, []string{"com", "co.uk", "de", "org", "notatld"})
+					}
+					host = pick(r, []string{"", "", "www.", "a.b.", "my"}) + host
+				}
+			}
 			for flags := 0; flags < 8 && i < n; flags, i = flags+1, i+1 {
 				css, js, gen := flags&1 != 0, flags&2 != 0, flags&4 != 0
 				ans := guardStr(func() string {
@@ -136,8 +152,8 @@ func genC15(r *rng, n int, w *bufio.Writer) {
 						return "unexpected-css-or-js-result"
 					}
 
-					a := selSet(res.ElementHiding.Generic, res.ElementHiding.GenericExtCSS) + "|" +
-						selSet(res.ElementHiding.Specific, res.ElementHiding.SpecificExtCSS)
+					a := c15SelSet(res.ElementHiding.Generic, res.ElementHiding.GenericExtCSS) + "|" +
+						c15SelSet(res.ElementHiding.Specific, res.ElementHiding.SpecificExtCSS)
 					if a == "()|()" {
 						a = "()" // the all-empty answer (counted as trivial by vcheck)
 					}
